@@ -200,13 +200,14 @@ theorem volumeDriverOpts_shape (cfg : Cfg) (kvs : Val.KVs) (v' : Val) (h : volum
   · rename_i hdr
     split at h
     · simp only [Out.ok.injEq] at h; exact .inl h.symm
+    · simp only [Out.ok.injEq] at h; exact .inl h.symm
     · rename_i opts hopts
       split at h
       · rename_i dev ho hdev
         obtain ⟨d, hd, rfl⟩ := Out.map_ok _ _ _ h
         exact .inr ⟨hdr, opts, dev, d, hopts, ho, hdev, hd, rfl⟩
       · simp only [Out.ok.injEq] at h; exact .inl h.symm
-    · simp at h
+    · cases h
   · simp only [Out.ok.injEq] at h; exact .inl h.symm
 
 theorem volumeDriverOpts_idem (cfg : Cfg) (hwd : isAbs cfg.wd = true) (v v' : Val)
@@ -427,6 +428,186 @@ theorem walkSeq_frame (t : Table) (cfg : Cfg) :
       exact ⟨x', r', rfl, walk_frame t cfg _ x x' hx, walkSeq_frame t cfg p r r' hr⟩
     | err e => rw [hx] at h; simp at h
     | panic s => rw [hx] at h; simp at h
+end
+
+/-! ### no resolver panics (after the shape checks of round 2) -/
+
+theorem Out.map_no_panic {α β : Type} (f : α → β) (x : Out α) (h : ∀ s, x ≠ .panic s) : ∀ s, x.map f ≠ .panic s := by
+  intro s
+  cases x with
+  | ok a => simp [Out.map]
+  | err e => simp [Out.map]
+  | panic t => exact absurd rfl (h t)
+
+mutual
+theorem absPath_no_panic (cfg : Cfg) : ∀ (v : Val) (s : String), absPath cfg v ≠ .panic s
+  | .str _, s => by simp [absPath]
+  | .seq xs, s => by
+    simp only [absPath]
+    exact Out.map_no_panic _ _ (absPathList_no_panic cfg xs) s
+  | .null, s => by simp [absPath]
+  | .bool _, s => by simp [absPath]
+  | .int _, s => by simp [absPath]
+  | .float _, s => by simp [absPath]
+  | .map _, s => by simp [absPath]
+theorem absPathList_no_panic (cfg : Cfg) : ∀ (xs : List Val) (s : String), absPathList cfg xs ≠ .panic s
+  | [], s => by simp [absPathList]
+  | x :: r, s => by
+    simp only [absPathList]
+    cases hx : absPath cfg x with
+    | ok x' => simp only; exact Out.map_no_panic _ _ (absPathList_no_panic cfg r) s
+    | err e => simp
+    | panic t => exact absurd hx (absPath_no_panic cfg x t)
+end
+
+theorem maybeUnixStr_no_panic (cfg : Cfg) (p : Str) (s : String) : maybeUnixStr cfg p ≠ .panic s := by
+  obtain ⟨r, hr⟩ := maybeUnixStr_total cfg p
+  rw [hr]; simp
+
+theorem maybeUnixPath_no_panic (cfg : Cfg) (v : Val) (s : String) : maybeUnixPath cfg v ≠ .panic s := by
+  cases v with
+  | str x => simp only [maybeUnixPath]; exact Out.map_no_panic _ _ (maybeUnixStr_no_panic cfg _) s
+  | _ => simp [maybeUnixPath]
+
+theorem absSymbolicLink_no_panic (cfg : Cfg) (v : Val) (s : String) : absSymbolicLink cfg v ≠ .panic s := by
+  simp only [absSymbolicLink]
+  cases h : absPath cfg v with
+  | ok w =>
+    cases w with
+    | str x =>
+      simp only
+      cases cfg.sym x.toList <;> simp [okStr]
+    | _ => simp
+  | err e => simp
+  | panic t => exact absurd h (absPath_no_panic cfg v t)
+
+theorem absVolumeMount_no_panic (cfg : Cfg) (v : Val) (s : String) : absVolumeMount cfg v ≠ .panic s := by
+  cases v with
+  | map kvs =>
+    simp only [absVolumeMount]
+    split
+    · split
+      · simp
+      · exact Out.map_no_panic _ _ (maybeUnixStr_no_panic cfg _) s
+      · simp
+    · simp
+  | _ => simp [absVolumeMount]
+
+theorem volumeDriverOpts_no_panic (cfg : Cfg) (v : Val) (s : String) : volumeDriverOpts cfg v ≠ .panic s := by
+  cases v with
+  | map kvs =>
+    simp only [volumeDriverOpts]
+    split
+    · split
+      · simp
+      · simp
+      · split
+        · exact Out.map_no_panic _ _ (maybeUnixPath_no_panic cfg _) s
+        · simp
+      · simp
+    · simp
+  | _ => simp [volumeDriverOpts]
+
+def knownHandlers : List String :=
+  ["absPath", "absContextPath", "absExtendsPath", "absSymbolicLink", "absVolumeMount", "maybeUnixPath", "volumeDriverOpts"]
+
+theorem applyResolver_no_panic (cfg : Cfg) (h : String) (hk : h ∈ knownHandlers) (v : Val) (s : String) :
+    applyResolver cfg h v ≠ .panic s := by
+  simp only [knownHandlers, List.mem_cons, List.mem_nil_iff, or_false] at hk
+  rcases hk with rfl | rfl | rfl | rfl | rfl | rfl | rfl
+  · simp only [applyResolver, if_true]; exact absPath_no_panic cfg v s
+  · have : applyResolver cfg "absContextPath" v = absContextPath cfg v := by simp [applyResolver]
+    rw [this]; cases v <;> simp [absContextPath, okStr]
+  · have : applyResolver cfg "absExtendsPath" v = absExtendsPath cfg v := by simp [applyResolver]
+    rw [this]; cases v <;> simp [absExtendsPath, okStr]
+  · have : applyResolver cfg "absSymbolicLink" v = absSymbolicLink cfg v := by simp [applyResolver]
+    rw [this]; exact absSymbolicLink_no_panic cfg v s
+  · have : applyResolver cfg "absVolumeMount" v = absVolumeMount cfg v := by simp [applyResolver]
+    rw [this]; exact absVolumeMount_no_panic cfg v s
+  · have : applyResolver cfg "maybeUnixPath" v = maybeUnixPath cfg v := by simp [applyResolver]
+    rw [this]; exact maybeUnixPath_no_panic cfg v s
+  · have : applyResolver cfg "volumeDriverOpts" v = volumeDriverOpts cfg v := by simp [applyResolver]
+    rw [this]; exact volumeDriverOpts_no_panic cfg v s
+
+theorem firstMatch_handler_mem {t : Table} {p : TPath} {h : String} (hm : firstMatch t p = some h) :
+    ∃ e ∈ t, e.2 = h := by
+  obtain ⟨pat, hmem, _⟩ := firstMatch_some_mem hm
+  exact ⟨(pat, h), hmem, rfl⟩
+
+mutual
+theorem walk_no_panic (t : Table) (ht : ∀ e ∈ t, e.2 ∈ knownHandlers) (cfg : Cfg) :
+    ∀ (p : TPath) (v : Val) (s : String), walk t cfg p v ≠ .panic s
+  | p, .map kvs, s => by
+    cases hm : firstMatch t p with
+    | some hn =>
+      rw [walk_of_match t cfg p _ hn hm]
+      obtain ⟨e, he, rfl⟩ := firstMatch_handler_mem hm
+      exact applyResolver_no_panic cfg _ (ht e he) _ s
+    | none =>
+      simp only [walk, hm]
+      exact Out.map_no_panic _ _ (walkKVs_no_panic t ht cfg p kvs) s
+  | p, .seq xs, s => by
+    cases hm : firstMatch t p with
+    | some hn =>
+      rw [walk_of_match t cfg p _ hn hm]
+      obtain ⟨e, he, rfl⟩ := firstMatch_handler_mem hm
+      exact applyResolver_no_panic cfg _ (ht e he) _ s
+    | none =>
+      simp only [walk, hm]
+      exact Out.map_no_panic _ _ (walkSeq_no_panic t ht cfg p xs) s
+  | p, .null, s => by
+    cases hm : firstMatch t p with
+    | some hn =>
+      rw [walk_of_match t cfg p _ hn hm]
+      obtain ⟨e, he, rfl⟩ := firstMatch_handler_mem hm
+      exact applyResolver_no_panic cfg _ (ht e he) _ s
+    | none => simp [walk, hm]
+  | p, .bool _, s => by
+    cases hm : firstMatch t p with
+    | some hn =>
+      rw [walk_of_match t cfg p _ hn hm]
+      obtain ⟨e, he, rfl⟩ := firstMatch_handler_mem hm
+      exact applyResolver_no_panic cfg _ (ht e he) _ s
+    | none => simp [walk, hm]
+  | p, .int _, s => by
+    cases hm : firstMatch t p with
+    | some hn =>
+      rw [walk_of_match t cfg p _ hn hm]
+      obtain ⟨e, he, rfl⟩ := firstMatch_handler_mem hm
+      exact applyResolver_no_panic cfg _ (ht e he) _ s
+    | none => simp [walk, hm]
+  | p, .float _, s => by
+    cases hm : firstMatch t p with
+    | some hn =>
+      rw [walk_of_match t cfg p _ hn hm]
+      obtain ⟨e, he, rfl⟩ := firstMatch_handler_mem hm
+      exact applyResolver_no_panic cfg _ (ht e he) _ s
+    | none => simp [walk, hm]
+  | p, .str _, s => by
+    cases hm : firstMatch t p with
+    | some hn =>
+      rw [walk_of_match t cfg p _ hn hm]
+      obtain ⟨e, he, rfl⟩ := firstMatch_handler_mem hm
+      exact applyResolver_no_panic cfg _ (ht e he) _ s
+    | none => simp [walk, hm]
+theorem walkKVs_no_panic (t : Table) (ht : ∀ e ∈ t, e.2 ∈ knownHandlers) (cfg : Cfg) :
+    ∀ (p : TPath) (kvs : List (String × Val)) (s : String), walkKVs t cfg p kvs ≠ .panic s
+  | p, [], s => by simp [walkKVs]
+  | p, (k, v) :: r, s => by
+    simp only [walkKVs]
+    cases hx : walk t cfg (TPath.next p k) v with
+    | ok x' => simp only; exact Out.map_no_panic _ _ (walkKVs_no_panic t ht cfg p r) s
+    | err e => simp
+    | panic u => exact absurd hx (walk_no_panic t ht cfg _ v u)
+theorem walkSeq_no_panic (t : Table) (ht : ∀ e ∈ t, e.2 ∈ knownHandlers) (cfg : Cfg) :
+    ∀ (p : TPath) (xs : List Val) (s : String), walkSeq t cfg p xs ≠ .panic s
+  | p, [], s => by simp [walkSeq]
+  | p, x :: r, s => by
+    simp only [walkSeq]
+    cases hx : walk t cfg (TPath.next p "[]") x with
+    | ok x' => simp only; exact Out.map_no_panic _ _ (walkSeq_no_panic t ht cfg p r) s
+    | err e => simp
+    | panic u => exact absurd hx (walk_no_panic t ht cfg _ x u)
 end
 
 /-! ### the order in which Go ranges over the resolver table is irrelevant -/
